@@ -1,9 +1,10 @@
 -- driver: session Um.Drv.Session
 import UmModel.Session
 import UmDriver.Common
-/-! Replays the scripts of `umh_session` through `Um.Session.step`: one `request` per `req` line;
-on `go`, for every id in completion order the sends / drop of its mode, then `pump` and `writeOne`
-until `replies` is empty; prints the written replies. -/
+/-! Replays the scripts of `umh_session` through the poll-structured `Um.Session.pstep`: one poll
+decoding one request per `req` line; on `go` / `bp`, for every id in completion order the sends /
+drop of its mode followed by a poll with ample socket capacity; prints the replies that reached the
+socket (`written.take flushed`). -/
 namespace Um.Drv.Session
 open Um Um.Session
 
@@ -23,7 +24,8 @@ def indexOf (id : Nat) : List (Nat × String) → Nat → Option (Nat × String)
   | [], _ => none
   | (i, m) :: rest, k => if i = id then some (k, m) else indexOf id rest (k + 1)
 
-def modeEvents (k id : Nat) : String → List Ev
+def modeEvents (k id : Nat) (m : String) : List PEv :=
+  match m with
   | "ok" => [.send k (.ok id)]
   | "eio" => [.send k (.err .io)]
   | "eun" => [.send k (.err .unexpectedResponse)]
@@ -33,20 +35,15 @@ def modeEvents (k id : Nat) : String → List Ev
   | "ein" => [.send k (.err .inner)]
   | "dbl" => [.send k (.ok id), .send k (.ok 0), .dropSender k]
   | "errok" => [.send k (.err .io), .send k (.ok id), .dropSender k]
-  | _ => [.dropSender k]
+  | _ => if m.startsWith "L" then [.send k (.ok id)] else [.dropSender k]
 
-/-- `writeOne` until `replies` is empty (at most `fuel` times) -/
-def flushAll : Nat → St → St
-  | 0, s => s
-  | n + 1, s => if s.replies.isEmpty then s else flushAll n (step s .writeOne)
+/-- socket capacity of a healthy client for one poll -/
+def ample : Nat := 1000000
 
 def complete (d : D) (id : Nat) : D :=
   match indexOf id d.reqs 0 with
   | none => d
-  | some (k, m) =>
-    let s1 := run d.s (modeEvents k id m)
-    let s2 := step s1 .pump
-    { d with s := flushAll (s2.replies.length + 1) s2 }
+  | some (k, m) => { d with s := prun d.s (modeEvents k id m ++ [.poll 0 ample]) }
 
 def natList (s : String) : List Nat := (s.splitOn ",").filterMap String.toNat?
 
@@ -54,12 +51,16 @@ def step' (d : D) (toks : List String) : D × String :=
   match toks with
   | ["req", a, m] =>
     match a.toNat? with
-    | some id => ({ s := step d.s .request, reqs := d.reqs ++ [(id, m)] }, "-")
+    | some id => ({ s := pstep d.s (.poll 1 ample), reqs := d.reqs ++ [(id, m)] }, "-")
     | none => (d, "bad-op")
   | "go" :: _ :: rest =>
     let order := natList (rest.headD "")
     let d' := order.foldl complete d
-    (d', " ".intercalate (d'.s.written.map replyText))
+    (d', " ".intercalate ((d'.s.written.take d'.s.flushed).map replyText))
+  | "bp" :: _ :: _ :: _ :: _ :: _ :: rest =>
+    let order := natList (rest.headD "")
+    let d' := order.foldl complete d
+    (d', " ".intercalate ((d'.s.written.take d'.s.flushed).map replyText))
   | "half" :: _ => (d, "prefix-ok")
   | "idle" :: _ => (d, "closed")
   | _ => (d, "bad-op")
